@@ -1738,6 +1738,99 @@ func main() {
 			"`table.Reader.Release` drops the preloaded index block (`r.indexBlock = nil`) without `r.indexBlock.Release()`: its buffer is not recycled under iterators that walk it without a reference (D46)")
 		// wp51 END
 	}
+	// wp64 BEGIN: the table-reader repairs of the Recover hunt wp60 (findings 1, 2, 5); Model/Table.lean `ReaderFix.code`,
+	// Props/C13.lean `code_reader_repaired`
+	{
+		const rd, tb = "leveldb/table/reader.go", "leveldb/table/table.go"
+		top := func(rel, fn string) (ts []string, ss []ast.Stmt) {
+			if fd := findFunc(rel, fn); fd != nil {
+				for _, st := range fd.Body.List {
+					ts = append(ts, stmtText(st))
+					ss = append(ss, st)
+				}
+			}
+			return
+		}
+		idx := func(ts []string, want string) int { // the only top-level statement with exactly that text, or -1
+			at := -1
+			for i, t := range ts {
+				if t == want {
+					if at >= 0 {
+						return -1
+					}
+					at = i
+				}
+			}
+			return at
+		}
+		body := func(st ast.Stmt, cond string) []string { // statements of `if <cond> { … }` without else, or nil
+			is, ok := st.(*ast.IfStmt)
+			if !ok || is.Init != nil || is.Else != nil || stmtText(is.Cond) != cond {
+				return nil
+			}
+			var out []string
+			for _, b := range is.Body.List {
+				out = append(out, stmtText(b))
+			}
+			return out
+		}
+		nr, nrs := top(rd, "NewReader")
+		iMeta := idx(nr, "metaBlock, err := r.readBlock(r.metaBH, true)")
+		iIdxBH := idx(nr, "r.indexBH, n = decodeBlockHandle(footer[n:])")
+		iEnd := idx(nr, "r.dataEnd = int64(r.metaBH.offset)")
+		// 1. a corrupted metaindex block is dropped (no permanent error), its loop is skipped, dataEnd comes from the footer
+		metaOK := false
+		if iMeta >= 0 && iMeta+1 < len(nr) && iEnd > iMeta {
+			b := body(nrs[iMeta+1], "err != nil")
+			guard := -1
+			for i, t := range nr {
+				if strings.HasPrefix(t, "if metaBlock != nil {") {
+					if guard >= 0 {
+						guard = -2
+						break
+					}
+					guard = i
+				}
+			}
+			metaOK = len(b) == 2 && b[0] == "if !errors.IsCorrupted(err) { return nil, err }" && b[1] == "metaBlock = nil" &&
+				guard > iEnd && strings.Contains(nr[guard], "metaIter := r.newBlockIter(metaBlock, nil, nil, true)") &&
+				strings.Contains(nr[guard], "metaBlock.Release()") &&
+				idx(nr, "metaIter := r.newBlockIter(metaBlock, nil, nil, true)") < 0 && idx(nr, "metaBlock.Release()") < 0
+		}
+		o.boolean("tblMetaindexCorruptionCostsFilterOnly", metaOK,
+			"`table.NewReader`: after `metaBlock, err := r.readBlock(r.metaBH, true)` a corruption error only clears the block (`if err != nil { if !errors.IsCorrupted(err) { return nil, err }; metaBlock = nil }`, no `r.err = err`), `r.dataEnd = int64(r.metaBH.offset)` follows, and the metaindex loop with both releases sits inside `if metaBlock != nil { … }`: a damaged metaindex block costs the filter, not the table (finding 1 of wp60)")
+		// 2. both footer handles are checked against the file before anything is read
+		const chk = "for _, bh := range []blockHandle{r.metaBH, r.indexBH} { if bh.offset > uint64(footerPos) || bh.length > uint64(footerPos)-bh.offset { " +
+			"r.err = r.newErrCorrupted(footerPos, footerLen, \"table-footer\", \"block handle out of range\") return r, nil } }"
+		iChk := idx(nr, chk)
+		iPos := idx(nr, "footerPos := size - footerLen")
+		firstRead := -1
+		for i, t := range nr {
+			if strings.Contains(t, "r.readBlock(") || strings.Contains(t, "r.readFilterBlock(") || strings.Contains(t, "r.readRawBlock(") {
+				firstRead = i
+				break
+			}
+		}
+		o.boolean("tblFooterHandlesChecked", iChk >= 0 && iPos >= 0 && iPos < iChk && iIdxBH >= 0 && iIdxBH+1 < iChk && firstRead > iChk,
+			"`table.NewReader` runs `for _, bh := range []blockHandle{r.metaBH, r.indexBH} { if bh.offset > uint64(footerPos) || bh.length > uint64(footerPos)-bh.offset { r.err = <table-footer corruption>; return r, nil } }` (with `footerPos := size - footerLen`) after both handles are decoded and before the first block is read: no buffer of a length claimed by the unchecksummed footer is allocated unless the block lies within the file (finding 2 of wp60)")
+		// 3. a short read is a corrupted block
+		rr, rrs := top(rd, "Reader.readRawBlock")
+		shortOK := len(rr) >= 4 && rr[0] == "data := r.bpool.Get(int(bh.length + blockTrailerLen))" &&
+			rr[1] == "n, err := r.reader.ReadAt(data, int64(bh.offset))" && rr[2] == "if err != nil && err != io.EOF { return nil, err }"
+		if shortOK {
+			b := body(rrs[3], "n < len(data)")
+			shortOK = len(b) == 2 && b[0] == "r.bpool.Put(data)" && strings.HasPrefix(b[1], "return nil, r.newErrCorruptedBH(bh, ")
+		}
+		o.boolean("tblShortReadIsCorruption", shortOK,
+			"`Reader.readRawBlock` starts `data := r.bpool.Get(int(bh.length + blockTrailerLen)); n, err := r.reader.ReadAt(data, int64(bh.offset)); if err != nil && err != io.EOF { return nil, err }; if n < len(data) { r.bpool.Put(data); return nil, r.newErrCorruptedBH(bh, …) }`: a block handle reaching beyond the end of the file is a corrupted block, the recycled buffer's old contents are never looked at (finding 5 of wp60)")
+		// 4. decodeBlockHandle: an overflowing varint (n < 0) is a bad handle, never an index
+		dh, _ := top(tb, "decodeBlockHandle")
+		o.boolean("tblDecodeHandleRejectsOverflow", len(dh) == 5 && dh[0] == "offset, n := binary.Uvarint(src)" &&
+			dh[1] == "if n <= 0 { return blockHandle{}, 0 }" && dh[2] == "length, m := binary.Uvarint(src[n:])" &&
+			dh[3] == "if m <= 0 { return blockHandle{}, 0 }" && dh[4] == "return blockHandle{offset, length}, n + m",
+			"`decodeBlockHandle` is `offset, n := binary.Uvarint(src); if n <= 0 { return blockHandle{}, 0 }; length, m := binary.Uvarint(src[n:]); if m <= 0 { return blockHandle{}, 0 }; return blockHandle{offset, length}, n + m`: a varint that overflows 64 bits is treated like a short one instead of being used as a slice index (finding 2 of wp60)")
+	}
+	// wp64 END
 	o.boolean("ordPointReadsHoldSnapshot", topStmtBefore("leveldb/db.go", "DB.Get", "se := db.acquireSnapshot()", "defer db.releaseSnapshot(se)") &&
 		topStmtBefore("leveldb/db.go", "DB.Get", "defer db.releaseSnapshot(se)", "return db.get(nil, nil, key, se.seq, ro)") &&
 		topStmtBefore("leveldb/db.go", "DB.Has", "se := db.acquireSnapshot()", "defer db.releaseSnapshot(se)") &&
